@@ -69,6 +69,8 @@ def run(ctx):
     floors = []
     if c.get("share.constructed_collision", 0) < 1:
         floors.append("no constructed FNV collision reached the sharing stream (hashLpmSet changed? the collision construction must be redone)")
+    if c.get("walk.parallel_build", 0) < 5 or c.get("walk.serial_build", 0) < 5:
+        floors.append("snapshot -> BuildUserspace walk: fewer than 5 parallel or 5 serial builds")
     if c.get("share.mac_set", 0) < 5:
         floors.append("fewer than 5 MAC sets in the sharing stream")
     if c.get("prefix.v4_with_mapped_twin", 0) < 10:
